@@ -87,6 +87,12 @@ func main() {
 		os.Exit(1)
 	}
 	writeIfChanged(filepath.Join(*out, "Gen_Fields_pcache.v"), src)
+	src, err = genPureFuncs(*repo)
+	if err != nil {
+		fmt.Fprintln(os.Stderr, "astgen:", err)
+		os.Exit(1)
+	}
+	writeIfChanged(filepath.Join(*out, "Gen_Funcs.v"), src)
 }
 
 func writeIfChanged(path, content string) {
@@ -1117,5 +1123,174 @@ func genFieldWrites(repo, name, dir, file string) (string, error) {
 		})
 	}
 	b.WriteString("].\n")
+	return b.String(), nil
+}
+
+// ---------------------------------------------------------------------------
+// pure integer functions translated expression by expression to Gallina over Z
+// (Go int arithmetic without overflow: the translation is exact as long as no
+// intermediate value leaves the machine range; `/` and `%` truncate toward zero
+// = Z.quot / Z.rem).  Only functions whose body is `return <expr>` (optionally
+// preceded by `if <cond> { return <expr> }` statements) over their int parameters
+// are accepted; anything else is reported as untranslatable.
+
+var pureFuncs = []struct{ pkg, dir, file, fn string }{
+	{"pcache", "pcache", "provider_cache.go", "needMerge"},
+}
+
+func gallinaExpr(e ast.Expr, boolCtx bool) (string, bool, error) {
+	// returns (text, isBool)
+	switch x := e.(type) {
+	case *ast.ParenExpr:
+		t, b, err := gallinaExpr(x.X, boolCtx)
+		return "(" + t + ")", b, err
+	case *ast.BasicLit:
+		if x.Kind == token.INT {
+			v := constant.MakeFromLiteral(x.Value, x.Kind, 0)
+			return v.ExactString(), false, nil
+		}
+	case *ast.Ident:
+		switch x.Name {
+		case "true", "false":
+			return x.Name, true, nil
+		}
+		return x.Name, false, nil
+	case *ast.UnaryExpr:
+		t, b, err := gallinaExpr(x.X, boolCtx)
+		if err != nil {
+			return "", false, err
+		}
+		switch x.Op {
+		case token.NOT:
+			return "(negb " + t + ")", true, nil
+		case token.SUB:
+			return "(- " + t + ")", false, nil
+		}
+		_ = b
+	case *ast.BinaryExpr:
+		l, _, err := gallinaExpr(x.X, boolCtx)
+		if err != nil {
+			return "", false, err
+		}
+		r, _, err := gallinaExpr(x.Y, boolCtx)
+		if err != nil {
+			return "", false, err
+		}
+		switch x.Op {
+		case token.ADD:
+			return "(" + l + " + " + r + ")", false, nil
+		case token.SUB:
+			return "(" + l + " - " + r + ")", false, nil
+		case token.MUL:
+			return "(" + l + " * " + r + ")", false, nil
+		case token.QUO:
+			return "(Z.quot " + l + " " + r + ")", false, nil
+		case token.REM:
+			return "(Z.rem " + l + " " + r + ")", false, nil
+		case token.LSS:
+			return "(" + l + " <? " + r + ")", true, nil
+		case token.LEQ:
+			return "(" + l + " <=? " + r + ")", true, nil
+		case token.GTR:
+			return "(" + r + " <? " + l + ")", true, nil
+		case token.GEQ:
+			return "(" + r + " <=? " + l + ")", true, nil
+		case token.EQL:
+			return "(" + l + " =? " + r + ")", true, nil
+		case token.NEQ:
+			return "(negb (" + l + " =? " + r + "))", true, nil
+		case token.LAND:
+			return "(" + l + " && " + r + ")", true, nil
+		case token.LOR:
+			return "(" + l + " || " + r + ")", true, nil
+		}
+	}
+	return "", false, fmt.Errorf("untranslatable expression %s", exprStr(e))
+}
+
+func genPureFuncs(repo string) (string, error) {
+	var b strings.Builder
+	b.WriteString("(* GENERATED by harness/cmd/astgen from /repo -- do not edit *)\n")
+	b.WriteString("(* Pure integer functions of the source translated expression by expression (no overflow:\n   exact while every intermediate value stays in the machine range). *)\n")
+	b.WriteString("From Coq Require Import ZArith Bool.\nOpen Scope Z_scope.\n\n")
+	for _, pf := range pureFuncs {
+		fset := token.NewFileSet()
+		f, err := parser.ParseFile(fset, filepath.Join(repo, pf.dir, pf.file), nil, parser.SkipObjectResolution)
+		if err != nil {
+			return "", err
+		}
+		found := false
+		for _, d := range f.Decls {
+			fd, ok := d.(*ast.FuncDecl)
+			if !ok || fd.Name.Name != pf.fn || fd.Recv != nil || fd.Body == nil {
+				continue
+			}
+			found = true
+			var params []string
+			for _, fl := range fd.Type.Params.List {
+				for _, n := range fl.Names {
+					params = append(params, "("+n.Name+" : Z)")
+				}
+			}
+			// body: (if cond { return e })* return e
+			var conds, rets []string
+			isBool := false
+			okBody := true
+			for i, st := range fd.Body.List {
+				switch x := st.(type) {
+				case *ast.IfStmt:
+					if x.Init != nil || x.Else != nil || len(x.Body.List) != 1 {
+						okBody = false
+						break
+					}
+					r, ok := x.Body.List[0].(*ast.ReturnStmt)
+					if !ok || len(r.Results) != 1 {
+						okBody = false
+						break
+					}
+					c, _, err := gallinaExpr(x.Cond, true)
+					if err != nil {
+						return "", err
+					}
+					e, bb, err := gallinaExpr(r.Results[0], false)
+					if err != nil {
+						return "", err
+					}
+					isBool = bb
+					conds = append(conds, c)
+					rets = append(rets, e)
+				case *ast.ReturnStmt:
+					if len(x.Results) != 1 || i != len(fd.Body.List)-1 {
+						okBody = false
+						break
+					}
+					e, bb, err := gallinaExpr(x.Results[0], false)
+					if err != nil {
+						return "", err
+					}
+					isBool = bb
+					rets = append(rets, e)
+				default:
+					okBody = false
+				}
+			}
+			if !okBody || len(rets) != len(conds)+1 {
+				return "", fmt.Errorf("function %s.%s is no longer of the translatable shape", pf.pkg, pf.fn)
+			}
+			body := rets[len(rets)-1]
+			for i := len(conds) - 1; i >= 0; i-- {
+				body = "if " + conds[i] + " then " + rets[i] + " else " + body
+			}
+			ty := "Z"
+			if isBool {
+				ty = "bool"
+			}
+			b.WriteString(fmt.Sprintf("(* %s/%s: func %s *)\nDefinition %s_%s %s : %s :=\n  %s.\n\n",
+				pf.dir, pf.file, pf.fn, pf.pkg, pf.fn, strings.Join(params, " "), ty, body))
+		}
+		if !found {
+			return "", fmt.Errorf("function %s.%s not found", pf.pkg, pf.fn)
+		}
+	}
 	return b.String(), nil
 }
